@@ -128,6 +128,7 @@ def run(tier, seed):
         c04.sched(out, "chown2-%d" % i, ["--mode", "prog", "--prog", prog], nworkers=1)
     from props import vfsrun
     n, ln = (200, 150) if thorough else (12, 100)
+    vfsrun.builder_programs(out, tier, seed)
     vfsrun.hist(out, "builders", "rand", ["--n", str(n), "--len", str(ln), "--seed", str(seed + 11)], recs_per_chunk=13 if thorough else 1)
     out.assumptions += [
         "ChmodSym.SymMode is the reference reading of the documented grammar [dfa]:[ugoa]+[-+=][rwx]+ (one target letter per clause; a clause for the other kind is skipped; "
